@@ -13,7 +13,7 @@ C04, unbounded part — the label list of a code string of ANY length.
 The per-opcode facts (jump forms equal, operand-taking sets equal, EXTENDED_ARG number and
 shift) are discharged over the regenerated tables in C04.lean (`C04_label_tables`).
 -/
-import XV.Props.C02Stream
+import XV.Props.C02.Stream
 namespace XV.Props.C04
 open XV XV.Model XV.Model.Decode XV.Props.C02
 
